@@ -40,7 +40,7 @@ impl Filter {
                 items
                     .into_iter()
                     .filter(|(_, item)| self.filter_item(Pointer::empty(*item), root))
-                    .map(|(key, item)| Pointer::key(item, p.path.clone(), key))
+                    .map(|(key, item)| Pointer::member(item, p.path.clone(), key))
                     .collect(),
             )
         } else {
